@@ -11,7 +11,7 @@ var opsC05All = []string{"Add", "AddWithCount", "AddBin", "Merge", "CopyTo", "Cl
 func checkC05(c *Ctx) {
 	c.Ev.Coverage.Rule = "TLC model-checks the operational collapsing design of Store.tla against the declarative fold (S_Fold, S_Span, S_Conserve) for pairs of slot kinds/bin limits, then enumerates every history (exhaustive tree) and long random histories over collapsing/exact slot pairs; each is replayed on real CollapsingLowest/HighestDenseStore (and dense/sparse/paginated partners) under index translations, comparing every observable of every slot after every step with ==; a panic is a disagreement. distinct_nontrivial counts distinct (abstract state, event) pairs exercised on the implementation."
 	c.Ev.Coverage.CheckerCmd = "./check C05 " + c.Tier
-	c.Ev.Assumptions = []string{"weights are dyadic so float64 sums are exact", "bin limits N in 1..4 in direction A (larger N in recorded traces)"}
+	c.Ev.Assumptions = []string{"weights are dyadic so float64 sums are exact", "bin limits N in 1..7 in direction A (larger N in recorded traces)"}
 	type pair struct{ a, b ModelKind }
 	mcPairs := []pair{{ModelKind{"low", 2}, ModelKind{"high", 3}}, {ModelKind{"low", 3}, ModelKind{"low", 1}},
 		{ModelKind{"high", 3}, ModelKind{"high", 1}}, {ModelKind{"exact", 0}, ModelKind{"low", 2}}}
@@ -44,17 +44,51 @@ func checkC05(c *Ctx) {
 		c.runStoreGen(&StoreGen{Kinds: []ModelKind{p.a, p.b}, Keys: []int{0, 2, 4}, Q: 4, Weights: []int{6}, Ops: []string{"Add", "Merge", "Clear", "CopyTo"},
 			Depth: c.pick(4, 5)}, c.pick(3, 4), fmt.Sprintf("deep narrow tree add/merge/clear/copy %s%d x %s%d", p.a.Kind, p.a.N, p.b.Kind, p.b.N))
 	}
+	// directed scenarios: a narrow receiver (two adjacent indexes, either order, so that the array offset sits on either
+	// side), a wider argument of the same kind with a larger limit filled in canonical order, merges of the argument into
+	// the receiver only. Seven events are needed before the fast same-kind merge has to shift and fold at once.
+	type directed struct {
+		kind   string
+		n1, n2 int
+		keys2  []int
+	}
+	dirs := []directed{{"high", 3, 4, []int{0, 1, 2, 3}}, {"low", 3, 4, []int{0, 1, 2, 3}}}
+	if !c.quick() {
+		dirs = append(dirs, directed{"high", 2, 4, []int{0, 1, 2, 3}}, directed{"low", 2, 4, []int{0, 1, 2, 3}},
+			directed{"high", 2, 3, []int{0, 1, 2, 3}}, directed{"low", 2, 3, []int{0, 1, 2, 3}},
+			directed{"high", 3, 5, []int{0, 1, 2, 3, 4}}, directed{"low", 3, 5, []int{0, 1, 2, 3, 4}})
+	}
+	for _, d := range dirs {
+		g := &StoreGen{Kinds: []ModelKind{{d.kind, d.n1}, {d.kind, d.n2}}, Keys: d.keys2, SlotKeys: [][]int{{1, 2}, d.keys2}, Pairs: [][2]int{{2, 1}},
+			Q: 4, Weights: []int{6}, Ops: []string{"Add", "Merge"}, Depth: len(d.keys2) + 3}
+		if d.kind == "high" {
+			g.Asc = []int{2}
+		} else {
+			g.Desc = []int{2}
+		}
+		c.runStoreGen(g, c.pick(3, 4), fmt.Sprintf("directed deep tree: narrow %s%d receiver, wide %s%d argument", d.kind, d.n1, d.kind, d.n2))
+	}
+	// larger limits: where the array is centred depends on the limit (a first add at x covers [x-N/2, x+(N-1)/2]), so
+	// "the argument reaches below the array but the receiver's content stays inside the new edge" needs N >= 5
+	for _, p := range []pair{{ModelKind{"high", 5}, ModelKind{"high", 6}}, {ModelKind{"low", 5}, ModelKind{"low", 6}}} {
+		c.runStoreGen(&StoreGen{Kinds: []ModelKind{p.a, p.b}, Keys: []int{0, 1, 2, 3, 4, 5}, Q: 4, Weights: []int{6}, Ops: []string{"Add", "Merge", "Clear"},
+			Depth: c.pick(4, 5)}, c.pick(3, 4), fmt.Sprintf("tree with larger limits %s%d x %s%d", p.a.Kind, p.a.N, p.b.Kind, p.b.N))
+	}
 	simKinds := [][]ModelKind{
 		{{"low", 2}, {"low", 4}, {"exact", 0}}, {{"high", 2}, {"high", 4}, {"exact", 0}}, {{"low", 3}, {"high", 3}, {"low", 1}},
-		{{"high", 1}, {"exact", 0}, {"high", 3}}}
+		{{"high", 1}, {"exact", 0}, {"high", 3}}, {{"high", 5}, {"high", 7}, {"low", 5}, {"low", 7}}}
 	for _, ks := range simKinds {
-		c.runStoreGen(&StoreGen{Kinds: ks, Keys: []int{0, 1, 2, 3, 4}, Q: 4, Weights: []int{0, 1, 2, 4, 8, 12},
+		keys := []int{0, 1, 2, 3, 4}
+		if len(ks) == 4 {
+			keys = []int{0, 1, 2, 3, 4, 5, 6, 7, 8}
+		}
+		c.runStoreGen(&StoreGen{Kinds: ks, Keys: keys, Q: 4, Weights: []int{0, 1, 2, 4, 8, 12},
 			Factors: [][2]int{{1, 4}, {1, 2}, {2, 1}, {3, 1}}, Ops: opsC05All, Depth: c.pick(14, 24),
 			Simulate: true, Num: c.pick(800, 30000)}, c.pick(8, 16), fmt.Sprintf("simulated %v", ks))
 	}
 	c.runStoreTraces(c.pick(24, 200), traceGenOpts{Events: c.pick(400, 2000), Kinds: []string{"low", "high", "low", "high", "dense", "sparse", "paged"},
 		Limits: []int{1, 2, 3, 8, 128, 2048},
-		Ops: []string{"Add", "Add", "AddWithCount", "AddWithCount", "AddBin", "AddRepeat", "Merge", "Merge", "CopyTo", "Clear", "Reweight", "EncDec", "Proto", "Read"}}, "collapsing stores")
+		Ops:    []string{"Add", "Add", "AddWithCount", "AddWithCount", "AddBin", "AddRepeat", "Merge", "Merge", "CopyTo", "Clear", "Reweight", "EncDec", "Proto", "Read"}}, "collapsing stores")
 	c.runStoreTraces(c.pick(12, 100), traceGenOpts{Layout: true, MaxWidth: 60, Events: c.pick(300, 1500), Kinds: []string{"low", "high", "low", "high", "dense", "paged"},
 		Limits: []int{1, 2, 3, 8, 32, 128}, Ops: []string{"Add", "AddWithCount", "AddRepeat", "Merge", "Merge", "CopyTo", "Clear", "Reweight", "EncDec", "Read"}}, "collapsing stores, array layout")
 	// sketch level (last clause of C05): sketches built on collapsing stores hold the folded content and answer every
